@@ -506,7 +506,53 @@ func init() {
 		if f, ok := c.e.floatTextSource(s); ok {
 			return Tuple{f, errNil}, callDone
 		}
-		panic(pathEnd{kind: endUnsupported, msg: "strconv.ParseFloat on symbolic text"})
+		// Symbolic text: fork every symbolic byte over the character classes the
+		// parser distinguishes ('1'..'9' as one class, every syntactically
+		// meaningful character by itself, everything else as "other"); the
+		// error outcome is decided natively on a class representative, the
+		// numeric value is opaque unless every byte became concrete.
+		if s.Len() > 8 {
+			panic(pathEnd{kind: endUnsupported, msg: "strconv.ParseFloat on symbolic text longer than 8"})
+		}
+		rep := make([]byte, s.Len())
+		exact := true
+		for i := 0; i < s.Len(); i++ {
+			t := s.At(i)
+			if t.IsConst() {
+				rep[i] = byte(t.V)
+				continue
+			}
+			if c.e.branch(And(Bin(OpULe, BV(8, '1'), t), Bin(OpULe, t, BV(8, '9')))) {
+				rep[i] = '1'
+				exact = false
+				continue
+			}
+			found := false
+			for _, ch := range []byte("0.-+eE_iInNfFaAtTyYxXpPbBoOcCdD") {
+				if c.e.branch(Eq(t, BV(8, uint64(ch)))) {
+					rep[i] = ch
+					found = true
+					break
+				}
+			}
+			if !found {
+				rep[i] = '?'
+				exact = false
+			}
+		}
+		f, err := strconv.ParseFloat(string(rep), int(termArg(a[1]).SInt()))
+		var fv Value = BV(64, math.Float64bits(f))
+		if !exact {
+			args := append([]*Term{}, s.Terms()...)
+			for len(args) < 8 {
+				args = append(args, BV(8, 0))
+			}
+			fv = UF(fmt.Sprintf("parsefloat%d", s.Len()), 64, args...)
+		}
+		if err != nil {
+			return Tuple{fv, c.e.mkError("strconv.ParseFloat: parsing: invalid syntax")}, callDone
+		}
+		return Tuple{fv, errNil}, callDone
 	}
 }
 
